@@ -10,12 +10,14 @@
    where it has a peer, and no two of its peers (or pending peers) share a store.  The last two conditions are
    the excluded classes of the _partial theorems; without them the code itself violates the clause (_refuted).
 
-   Dependencies named, not hidden: L0 = pkg/btree (driver correspondence with degrees 2,3,4,64 incl. rank
-   queries; proof/C07_BTree.v for the order statistics), model = code (driver correspondence after every
+   Dependencies named, not hidden: L0 = pkg/btree is now a theorem about the Gallina transcription of pkg/btree
+   (C07_btree_* below: representation invariant + refinement of L0 for any degree and any strict weak order;
+   transcription = code by the body ties and the driver's observation-and-shape comparison), model = code (driver correspondence after every
    operation with all query methods; proof/C07_Skel.v ties every transcribed function body to the source). *)
 From Coq Require Import Sorting.Sorted.
 From PDV Require Import lib.Base lib.C07_Key gen.Gen_C07 model.C07_BTreeSpec model.C07_Region
-  proof.C07_Sorted proof.C07_Tree proof.C07_RegionProof proof.C07_Spec proof.C07_Spec2 proof.C07_Monitor proof.C07_BTree proof.C07_Skel.
+  proof.C07_Sorted proof.C07_Tree proof.C07_RegionProof proof.C07_Spec proof.C07_Spec2 proof.C07_Monitor proof.C07_BTree proof.C07_Skel
+  model.C07_BTree proof.C07_BTreeOrder proof.C07_BTreeRefine proof.C07_BTreeSim proof.C07_BTreeRegion.
 Local Open Scope Z_scope.
 
 (* number of indexed regions = number of cached regions = number of current regions; ids unique *)
@@ -110,30 +112,99 @@ Theorem C07_monitor_silent_on_model : forall ops, Forall wf_op ops -> Forall pla
   ri_monitor_from [] ops (ri_run ri_empty ops) = None.
 Proof. exact monitor_silent_pf. Qed.
 
-(* ---- pkg/btree, the part PD added (order statistics): stage 2, first part ----
-   `idx_of sizes` is the `indices` array of a node whose children have these sizes.  Each bookkeeping function is
-   the corresponding operation on the size list, and getAt on a node with correct indices is the k-th element of
-   the in-order walk.  (Split / steal / merge on whole nodes and GetWithIndex: differential check only.) *)
+(* ---- pkg/btree itself: stage 2 ----
+   model/C07_BTree.v is a Gallina B-tree of arbitrary degree (nodes with items / children / indices; insert with
+   split, remove with steal-left / steal-right / merge, get, getWithIndex, getAt, min, max, iterate in both
+   directions, ReplaceOrInsert, deleteItem) transcribed from pkg/btree/btree.go (proof/C07_Skel.v ties every
+   transcribed body; the driver compares observations AND node shapes with the real package).
+   `tinv ltb t` is its representation invariant: all leaves at the same depth, every node but the root holds between
+   degree-1 and 2*degree-1 items, an internal node with k items has k+1 children, indices[i] = number of items in
+   children 0..i plus i, the in-order walk is strictly sorted for `ltb`, `length` is its length.
+   `tabs t` is the in-order walk.  For ANY strict weak order `ltb` (Item.Less) and any degree >= 2 every operation
+   keeps the invariant, never reaches a panic of the Go code (result Some), and on the abstraction IS the L0 operation. *)
+Definition strict_weak_order {A : Type} (ltb : A -> A -> bool) : Prop :=
+  (forall a, ltb a a = false) /\
+  (forall a b c, ltb a b = true -> ltb b c = true -> ltb a c = true) /\
+  (forall a b c, ltb a b = false -> ltb b c = false -> ltb a c = false).
+
+Theorem C07_btree_empty_ok : forall (A : Type) (ltb : A -> A -> bool) d, (2 <= d)%nat ->
+  tinv ltb (bt_new d) /\ tabs (bt_new (A := A) d) = [].
+Proof. intros A ltb d D. split; [apply tinv_new, D|reflexivity]. Qed.
+
+Theorem C07_btree_replace_or_insert_refines : forall (A : Type) (ltb : A -> A -> bool), strict_weak_order ltb ->
+  forall t x, tinv ltb t ->
+  exists t' out, replace_or_insert ltb t x = Some (t', out) /\ tinv ltb t' /\ bt_degree t' = bt_degree t /\
+                 l0_insert ltb x (tabs t) = (tabs t', out).
+Proof. intros A ltb (H1 & H2 & H3). exact (replace_or_insert_spec ltb H1 H2 H3). Qed.
+
+Theorem C07_btree_delete_refines : forall (A : Type) (ltb : A -> A -> bool), strict_weak_order ltb ->
+  forall t typ, tinv ltb t ->
+  exists t' out, delete_item ltb t typ = Some (t', out) /\ tinv ltb t' /\ bt_degree t' = bt_degree t /\
+                 (match typ with
+                  | RemoveItem x => l0_delete ltb x (tabs t)
+                  | RemoveMin => l0_delete_min (tabs t)
+                  | RemoveMax => l0_delete_max (tabs t)
+                  end) = (tabs t', out).
+Proof.
+  intros A ltb (H1 & H2 & H3) t typ T. destruct (delete_item_spec ltb H1 H2 H3 t typ T) as (t' & out & H).
+  exists t', out. destruct typ; exact H.
+Qed.
+
+(* the fuel the model gives its recursive functions (root height + 1) is enough: results do not depend on it *)
+Theorem C07_btree_queries_refine : forall (A : Type) (ltb : A -> A -> bool), strict_weak_order ltb ->
+  forall t, tinv ltb t ->
+  let q {X} (dflt : X) (f : node A -> nat -> X) := match bt_root t with Some r => f r (S (height r)) | None => dflt end in
+  (forall x, q None (fun r h => get ltb h r x) = l0_get ltb x (tabs t)) /\
+  (forall x, q (None, 0) (fun r h => get_with_index ltb h r x) = (l0_get ltb x (tabs t), Z.of_nat (l0_rank ltb x (tabs t)))) /\
+  (forall k, q None (fun r h => get_at h r k) = l0_get_at k (tabs t)) /\
+  (forall x, q [] (fun r h => ascend_from ltb h r (Some x)) = l0_ascend_ge ltb x (tabs t)) /\
+  (forall x, q [] (fun r h => fst (descend_from ltb h r x false)) = l0_descend_le ltb x (tabs t)) /\
+  q None (fun r h => node_min h r) = hd_error (tabs t) /\
+  q None (fun r h => node_max h r) = hd_error (rev (tabs t)) /\
+  bt_length t = Z.of_nat (length (tabs t)).
+Proof.
+  intros A ltb (H1 & H2 & H3) t T. cbv zeta beta. repeat split; intros.
+  - apply (q_get ltb H1 H2 H3 t T).
+  - apply (q_get_with_index ltb H1 H2 H3 t T).
+  - apply (q_get_at ltb t T).
+  - apply (q_ascend ltb H1 H2 H3 t T).
+  - apply (q_descend ltb H1 H2 H3 t T).
+  - apply (q_min ltb t T).
+  - apply (q_max ltb t T).
+  - apply (tinv_length ltb t T).
+Qed.
+
+Theorem C07_btree_region_item_order : strict_weak_order rlt.
+Proof. split; [exact rlt_irrefl|split; [exact rlt_trans|exact rlt_negtrans]]. Qed.
+
+(* regionItem.Less (the order of the start keys) is such an order: the trees of core.regionTree *)
+Theorem C07_btree_region_items_refine : forall t r, tinv rlt t ->
+  (exists t' out, replace_or_insert rlt t r = Some (t', out) /\ tinv rlt t' /\ bt_degree t' = bt_degree t /\
+                  l0_insert rlt r (tabs t) = (tabs t', out)) /\
+  (exists t' out, delete_item rlt t (RemoveItem r) = Some (t', out) /\ tinv rlt t' /\ bt_degree t' = bt_degree t /\
+                  l0_delete rlt r (tabs t) = (tabs t', out)).
+Proof. intros t r T. split; [apply region_btree_insert, T|apply region_btree_delete, T]. Qed.
+
+(* Int items, whole runs: for every degree >= 2 and every operation list of the driver's alphabet (insert, delete,
+   delete-min/max, get, GetWithIndex, GetAt, both iterations, Len, Min, Max, all ranks) the Gallina B-tree gives
+   the observations of the list specification, and every intermediate tree satisfies the invariant *)
+Theorem C07_btree_refines_list_spec : forall d ops, (2 <= d)%nat ->
+  map (option_map fst) (bt2_run (bt_new d) ops) = map Some (bt_run [] ops) /\
+  Forall (shape_ok d) (bt2_run (bt_new d) ops).
+Proof. exact btree_refines_spec. Qed.
+
+(* the bookkeeping of `indices` in terms of the sizes of the children (used by the proofs above) *)
 Theorem C07_btree_indices_addAt : forall a s b d acc,
-  add_at (length a) d (idx_from acc (a ++ s :: b)) = idx_from acc (a ++ (s + d) :: b).
+  ix_add_at (length a) d (idx_from acc (a ++ s :: b)) = idx_from acc (a ++ (s + d) :: b).
 Proof. exact add_at_spec. Qed.
-Theorem C07_btree_indices_insertAt : forall a b sz, insert_at (length a) sz (idx_of (a ++ b)) = idx_of (a ++ sz :: b).
-Proof. exact insert_at_spec. Qed.
-Theorem C07_btree_indices_push : forall ss sz, push sz (idx_of ss) = idx_of (ss ++ [sz]).
-Proof. exact push_spec. Qed.
 Theorem C07_btree_indices_split : forall a s b nxt,
-  split (length a) nxt (idx_of (a ++ s :: b)) = idx_of (a ++ (s - 1 - nxt) :: nxt :: b).
+  ix_split (length a) nxt (idx_of (a ++ s :: b)) = idx_of (a ++ (s - 1 - nxt) :: nxt :: b).
 Proof. exact split_spec. Qed.
 Theorem C07_btree_indices_merge : forall a s1 s2 b,
-  merge (length a) (idx_of (a ++ s1 :: s2 :: b)) = idx_of (a ++ (s1 + 1 + s2) :: b).
+  ix_merge (length a) (idx_of (a ++ s1 :: s2 :: b)) = idx_of (a ++ (s1 + 1 + s2) :: b).
 Proof. exact merge_spec. Qed.
-Theorem C07_btree_indices_removeAt : forall a s b, remove_at (length a) (idx_of (a ++ s :: b)) = (s, idx_of (a ++ b)).
+Theorem C07_btree_indices_removeAt : forall a s b, ix_remove_at (length a) (idx_of (a ++ s :: b)) = (s, idx_of (a ++ b)).
 Proof. exact remove_at_spec. Qed.
-Theorem C07_btree_indices_pop : forall a s, pop (idx_of (a ++ [s])) = (s, idx_of a).
-Proof. exact pop_spec. Qed.
-Theorem C07_btree_get_at : forall (A : Type) (n : @bnode A), wf n ->
-  forall k, 0 <= k -> get_at n k = nth_error (flatten n) (Z.to_nat k).
-Proof. exact @get_at_spec. Qed.
 
 (* non-vacuity: a history inside the domain with a split-like overlap, an in-place update, a swallowing put
    and a removal; the swallowing region is what remains *)
@@ -168,6 +239,12 @@ Print Assumptions C07_random_pick_sound.
 Print Assumptions C07_random_pick_many_sound.
 Print Assumptions C07_random_pick_candidates_complete.
 Print Assumptions C07_monitor_silent_on_model.
+Print Assumptions C07_btree_empty_ok.
+Print Assumptions C07_btree_replace_or_insert_refines.
+Print Assumptions C07_btree_delete_refines.
+Print Assumptions C07_btree_queries_refine.
+Print Assumptions C07_btree_region_item_order.
+Print Assumptions C07_btree_region_items_refine.
+Print Assumptions C07_btree_refines_list_spec.
 Print Assumptions C07_btree_indices_split.
 Print Assumptions C07_btree_indices_merge.
-Print Assumptions C07_btree_get_at.
